@@ -1139,6 +1139,12 @@ def construct(eng, n, st):
                 if hook:
                     hook(eng, s, fobj, vals, n)
                 outs.append((s, fobj))
+            elif short == 'weakref' and len(vals) in (1, 2):
+                # external contract (A-CAPI): PyWeakref_NewRef - a new weak reference object; fails (error_already_set) when
+                # the object is not weakly referenceable; runs no Python code; the callback runs when the referent dies
+                s_exc = s.clone()
+                eng.throw(s_exc, 'pybind11::error_already_set', line, 'weak reference could not be created')
+                outs.append((s, PyObj(fresh('weakref', Ref), fresh=True)))
             else:
                 raise Unsupported(f'construction of {t} from {vals!r} at L{line}')
         return outs
